@@ -365,7 +365,15 @@ def preemption_chooser(order, preemptions):
             if last is not None and pre and pre[0][0] >= UNTIL_BLOCKED:
                 pre.pop(0)
             state["run"] = 0
-            return by_rank[0]
+            nxt = by_rank[0]
+            if pre and pre[0][0] == 0:
+                # a zero-step preemption: the thread that would resume does not get to take a step first
+                _, to = pre.pop(0)
+                others = [t for t in by_rank if t is not nxt]
+                if others:
+                    state["used"] += 1
+                    return others[to % len(others)]
+            return nxt
         if pre and state["run"] >= pre[0][0]:
             _, to = pre.pop(0)
             others = [t for t in by_rank if t is not last]
